@@ -1,13 +1,26 @@
-"""Property table: RTPS reliability protocol family (C01, C02, C04, C05). Texts are finalised below."""
+"""Property table: RTPS reliability protocol family (C01, C02, C04, C05)."""
 import os
 import re
 
 from ..common import REPO
 from ..props import prop
 
-_TECH = ("Kani/CBMC symbolic execution of the real RTPS objects (RtpsStatefulWriter, RtpsReaderProxy, "
-         "RtpsStatefulReader, RtpsWriterProxy, CacheChange fragmenting, RtpsMessageRead::try_from, MessageReceiver): "
-         "one real step from a symbolic pre-state, or one writer->datagrams->reader round")
+_TECH = ("Kani/CBMC symbolic execution of the real RTPS objects (RtpsStatefulReader, RtpsWriterProxy, RtpsStatefulWriter, "
+         "CacheChange fragmenting, the real submessage encoders): one real operation from a symbolic pre-state, property as "
+         "assert!, decided for all values within the stated bounds")
+
+_COMMON_NOTE = ("trusted: Kani 0.68/CBMC 6.11; harness pre-state constructors (public operations of the objects only); for harnesses "
+                "that look at emitted datagrams: support_rtps::from_submessages_staged replaces the datagram container "
+                "RtpsMessageWrite::from_submessages (Cursor<Vec<u8>> with length back-patching, C08's subject) by a fixed-capacity "
+                "staging buffer - the per-submessage header and element encoders executed are the real ones - and fields are read "
+                "at their RTPS 2.4 clause 9.4.5 wire offsets (short reference oracle); critical-section acquire/release no-op stubs; "
+                "per-loop unwinding bounds (--unwindset) for byte-count library loops, unwinding assertions on everywhere. "
+                "Measured limits that shaped the scope: reader/writer proxies live in Vec heap buffers whose contents are opaque to "
+                "CBMC's constant propagation, so every loop over history / fragment buffer is unrolled to the bound and every "
+                "datagram construction site is explored: RtpsReaderProxy::write_message_reliable (12 construction sites) needs "
+                "590 s of symbolic execution and then exceeds 12 GB; fragment reassembly (reconstruct_data_from_frag, symbolic-size "
+                "Vec<u8>/Arc<[u8]> copies) exceeds 12 GB after 100-185 s even for one concrete 2-fragment scenario.")
+
 
 # Per-loop unwinding bounds for two library loops whose trip count is a byte count, not a protocol bound:
 #  * memcmp.0 - CBMC's builtin memcmp ([u8;12] GuidPrefix / [u8;16] key hash equality): 16 bytes + exit test,
@@ -110,11 +123,115 @@ def _glue_guard():
     return True, "glue statements of %s match support_rtps::glue_heartbeat_proxy / glue_gap_proxy" % _CM
 
 
-prop("C01", level="other", explanation="placeholder", bounds="", outside="", level_text="", level_note="",
-     technique=_TECH, assumptions=[], cbmc_args=_CBMC, timeout=_TMO, guards=[_glue_guard])
-prop("C02", level="other", explanation="placeholder", bounds="", outside="", level_text="", level_note="",
-     technique=_TECH, assumptions=[], cbmc_args=_CBMC, timeout=_TMO, guards=[_glue_guard])
-prop("C04", level="other", explanation="placeholder", bounds="", outside="", level_text="", level_note="",
-     technique=_TECH, assumptions=[], cbmc_args=_CBMC_C04, timeout=_TMO, guards=[_glue_guard])
-prop("C05", level="other", explanation="placeholder", bounds="", outside="", level_text="", level_note="",
-     technique=_TECH, assumptions=[], cbmc_args=_CBMC, timeout=_TMO, guards=[_glue_guard])
+prop("C01", ready=True, level="other",
+     explanation=(
+         "Assume/guarantee chain of one-step obligations on the real reader-side objects, each decided by Kani for all values in its "
+         "bounds: (1) safety step - for every writer-proxy state and EVERY incoming DATA sequence number (full i64) a reliable "
+         "RtpsStatefulReader appends a change iff it is the next expected one from the matched writer, intact (sn, writer, kind, key "
+         "hash, payload), and nothing otherwise - by induction exactly-once, in order, intact under any loss/duplication/reordering; "
+         "(2) kernel - missing_changes()/available_changes_max() are exactly max(first,highest+1)..=last / max(first-1,highest) over "
+         "full i64; (3) request step - after a fresh HEARTBEAT the emitted ACKNACK has base = available_changes_max+1 and names exactly "
+         "the missing sequence numbers (numBits, bitmap, ids, count checked on the bytes of the real encoder), stale HEARTBEATs are "
+         "ignored, no ACKNACK where RTPS requires none; (4) the same step with a buffered fragment: ACKNACK set is cut below a partially "
+         "received sample and a NACK_FRAG with the 1-based missing fragment numbers is appended. Findings decided by the solver: "
+         "KF-C01-1 (a stale buffered fragment empties every later ACKNACK: missing changes are never requested again - permanent stall "
+         "of that reader), and through C05: KF-C05-1/KF-C05-2 (lost fragments of a reliable sample are never resent). The two reading "
+         "notes of the design were checked: `!missing_changes().count() == 0` is a dead disjunct (ACKNACKs are driven by "
+         "must_send_acknacks, set correctly by the HEARTBEAT glue) and is NOT a violation; the GAP branch of write_message_reliable "
+         "advancing highest_sent over the first post-gap change could not be executed (writer side out of reach) - by code reading the "
+         "skipped change is announced by the HEARTBEAT sent in the same datagram and requested by the next ACKNACK, i.e. it heals in "
+         "one round and is not a violation of the statement."),
+     bounds=("safety step and kernel: sequence numbers over full i64 (below i64::MAX-16), payload 0..=3 symbolic bytes, optional 16-byte key "
+             "hash; request steps: sequence numbers <= 1000, <= 4 missing changes, <= 1 buffered fragment of a 2-fragment sample, counts full "
+             "i32; one matched writer per reader"),
+     outside=("writer side: RtpsStatefulWriter::on_acknack_submessage_received / write_message_reliable (repair step: DATA or GAP for every "
+              "requested sn, highest_acked, stale ACKNACK counts) and therefore the composed progress/ranking round HEARTBEAT->ACKNACK->repair"
+              "->reader could NOT be decided: measured 590 s symbolic execution then out of memory (12 GB) for ONE retained change with every "
+              "loop bounded to its minimum - the eventual-delivery half of the statement is not claimed; more than one matched writer; "
+              "HEARTBEAT timing (C31); reassembly of fragmented samples (C05, also out of reach); sequence numbers within 16 of i64::MAX"),
+     level_text=("Bounded symbolic checking of the real reader-side code: each obligation is decided by CBMC for every value of its symbolic "
+                 "inputs within the stated bounds (full 64-bit sequence-number domain for the safety step); not sampling. Level 'other' "
+                 "because the sizes (payload, number of missing changes, one fragment) are bounded and the writer-side half of the "
+                 "statement is outside."),
+     level_note=_COMMON_NOTE,
+     technique=_TECH,
+     assumptions=["writer-proxy representation invariant first_available >= 1, highest_received >= 0, last_available >= 0 (re-asserted by the steps)",
+                  "HEARTBEAT validity (RTPS 8.3.7.5): firstSN >= 1, lastSN >= firstSN - 1",
+                  "support_rtps::glue_heartbeat_proxy / glue_gap_proxy replicate the statements of the private handle_heartbeat_submessage / "
+                  "handle_gap_submessage (source guard fails the check when they change)"],
+     cbmc_args=_CBMC, timeout=_TMO, guards=[_glue_guard])
+
+prop("C02", ready=True, level="other",
+     explanation=(
+         "One-step obligation on the real RtpsStatefulReader with ReliabilityKind::BestEffort, DATA path: for every writer-proxy state "
+         "and EVERY incoming sequence number (full i64) a change is appended iff it comes from the matched writer and its sn is above "
+         "the floor available_changes_max; then exactly one change is appended with the submessage's sn, writer, kind, key hash and "
+         "payload bytes and the floor becomes that sn (it never decreases) - by induction over deliveries the presented samples are a "
+         "strictly increasing subsequence of the published ones, each at most once, byte-identical, whatever is lost, duplicated or "
+         "reordered. Reassembled fragmented samples enter the cache through this same on_data_submessage step (stateful_reader.rs:143-146), "
+         "so the no-duplicate / no-reorder part holds for them too; their byte-identity does not follow (see outside)."),
+     bounds=("sequence numbers and proxy state over full i64 (below i64::MAX-16), payload 0..=3 symbolic bytes, optional 16-byte key hash; "
+             "one matched writer"),
+     outside=("the DATA_FRAG path of a best-effort reader (on_data_frag_submessage: buffering rule sn >= expected, reconstruct_data_from_frag) could "
+              "NOT be decided: c02_besteffort_frag_step (one fragment, empty buffer) and c05_reassembly_step_besteffort (kept in the harness "
+              "files, not indexed) run out of 12 GB - byte-identity of fragmented samples is not claimed; the best-effort writer path "
+              "(write_message_best_effort: by code reading its GAP branch skips the first change after a sequence gap without sending it, "
+              "which is a loss - allowed by this statement, not a duplicate/reorder); DDS-level presentation after the RTPS cache (C20)"),
+     level_text=("Bounded symbolic checking of the real reader code: decided by CBMC for every incoming sequence number over the full 64-bit "
+                 "domain and every proxy state; bounded payload sizes; not sampling."),
+     level_note=_COMMON_NOTE,
+     technique=_TECH,
+     assumptions=["writer-proxy representation invariant first_available >= 1, highest_received >= 0", "no sequence number within 16 of i64::MAX"],
+     cbmc_args=_CBMC, timeout=_TMO, guards=[_glue_guard])
+
+prop("C04", ready=True, level="other",
+     explanation=(
+         "Only the reader-side completion predicate of the statement is decided: RtpsWriterProxy::is_historical_data_received (and "
+         "RtpsStatefulReader::is_historical_data_received with one matched writer) is false before the first accepted HEARTBEAT whatever "
+         "was received, and after it true iff no sequence number in max(firstSN,highest+1)..=lastSN is missing (full i64 kernel + a step "
+         "through the real HEARTBEAT glue); receiving - or being told by GAP to skip - the last missing change makes it true. "
+         "wait_for_historical_data therefore cannot complete while an announced change is still missing, and completes with the "
+         "HEARTBEAT/DATA that closes the gap."),
+     bounds="kernel: full i64 state; step: sequence numbers <= 1000, <= 3 missing changes, HEARTBEAT count full i32, one matched writer",
+     outside=("the writer side of the statement - add_matched_reader's first_relevant_sample_seq_num (VOLATILE: max sn at match, "
+              "TRANSIENT_LOCAL: 0) and write_message_reliable sending GAP instead of DATA for sn <= first_relevant - could NOT be decided: "
+              "harness c04_late_joiner_push (kept in c04_durability.rs, not indexed) needs 590 s of symbolic execution and then exceeds "
+              "12 GB for one retained change with every loop bounded to its minimum; so 'a VOLATILE reader never presents a pre-match sample' "
+              "and 'a TRANSIENT_LOCAL reader is sent the retained history' are NOT claimed; KEEP_LAST trimming of the writer history (C27); "
+              "the DDS-level notification wait_for_historical_data_notification.drain (participant aggregate)"),
+     level_text=("Bounded symbolic checking of the reader-side predicate only (full 64-bit domain for the kernel). The writer-side half of "
+                 "the statement was attempted and is out of reach of this technique on this machine; it is listed as outside, not claimed."),
+     level_note=_COMMON_NOTE,
+     technique=_TECH,
+     assumptions=["writer-proxy representation invariant", "HEARTBEAT validity firstSN >= 1, lastSN >= firstSN - 1",
+                  "a first HEARTBEAT carries count >= 1 (dust-dds writers start at 1; a count-0 HEARTBEAT is ignored by the glue)"],
+     cbmc_args=_CBMC_C04, timeout=_TMO, guards=[_glue_guard])
+
+prop("C05", ready=True, level="other",
+     explanation=(
+         "(1) Slicing kernel: for every payload length 1..=7, fragment size 1..=3 and fragment index, "
+         "CacheChange::as_data_frag_submessage yields fragment_starting_num = index+1, the exact byte slice "
+         "[k*f, min((k+1)*f, L)), data_size L, fragment_size f - the fragments tile the payload. (2) NACK_FRAG contract, reader side: a "
+         "partially received missing sample is requested with NACK_FRAG(writerSN, exactly the missing fragment numbers, 1-based), cut "
+         "correctly against the ACKNACK set. (3) NACK_FRAG contract, writer side: stale counts are ignored; every datagram emitted is "
+         "INFO_DST+INFO_TS+DATA_FRAG of the requested sample, number within 1..=total, correct geometry and exactly the bytes of its own "
+         "fragment number. Two genuine defects are decided by the solver and kept as known findings: KF-C05-1 (nack_frag_count is never "
+         "incremented, every NACK_FRAG carries 0 and the writer ignores it) and KF-C05-2 (the writer uses the requested 1-based numbers as "
+         "0-based indices: a request for {1} resends fragment 2, a request for the last fragment resends nothing; base is resent twice). "
+         "Together: a lost fragment of a reliable sample is never resent."),
+     bounds=("slicing: L 1..=7, f 1..=3 (k*f-1, k*f, k*f+1 for k <= 2), sn full i64; NACK_FRAG: 3-byte sample in 2 fragments of size 2, requested "
+             "set any non-empty subset of {1,2}, counts full i32, sequence numbers <= 1000"),
+     outside=("REASSEMBLY (RtpsWriterProxy::reconstruct_data_from_frag through on_data_frag_submessage: exactly one change, byte-identical, only "
+              "when the last missing fragment arrives, under reordering/duplication/interleaving) could NOT be decided: harnesses "
+              "c05_reassembly_step_reliable/_besteffort/c05_reassembly_orders (kept in c05_frag.rs, not indexed) exceed 12 GB (symbolic execution "
+              "100-185 s, then out of memory in propositional reduction; even one concrete 2-fragment scenario does) - the byte-identity half "
+              "of the statement for the receive side is not claimed; total_fragments_expected arithmetic over full u32 x u16 (private fn; "
+              "fragment_size == 0 from the wire makes data_size / fragment_size panic in reconstruct_data_from_frag and div_ceil panic in "
+              "write_message - not an 'accepted fragment size', reported to C06); more than 3 fragments; HEARTBEAT_FRAG"),
+     level_text=("Bounded symbolic checking of the real fragmenting and NACK_FRAG code: decided by CBMC for all values within the bounds; "
+                 "two obligations fail for every input and are recorded as known findings with the failing assertion pinned."),
+     level_note=_COMMON_NOTE,
+     technique=_TECH,
+     assumptions=["a reliable reader buffers a fragment only for the sequence number it expects when the fragment arrives",
+                  "glue replicas guarded by the source guard"],
+     cbmc_args=_CBMC, timeout=_TMO, guards=[_glue_guard])
